@@ -546,9 +546,14 @@ def run(ctx, br):
         q["id"] = i
     resps = run_harness(reqs, jobs)
     oracle_fail = 0
+    oracle_known = 0
+    known_sigs = [k.get("signature") for k in ctx.known_findings]
     for q, r in zip(reqs, resps):
         for what, sig in oracle(q, r)[:2]:
-            oracle_fail += 1
+            if sig is not None and sig in known_sigs:
+                oracle_known += 1
+            else:
+                oracle_fail += 1
             ctx.violation("C15 oracle: " + what, small(q, r), signature=sig)
     idx = [i for i, r in enumerate(resps) if r is not None and r.get("died") is None]
     verdicts = vlib.run_judge(ctx.rundir, "JLifecycle", "judge", [judge_case(reqs[i], resps[i]) for i in idx], shard=600000)
@@ -594,6 +599,7 @@ def run(ctx, br):
         "steps_validated": sum(lens),
         "judge_mismatches": mism,
         "oracle_failures": oracle_fail,
+        "oracle_hits_of_known_findings": oracle_known,
         "model_branches_hit": {str(k): v for k, v in sorted(bits.items())},
         "distinct_branch_masks": len(masks),
         "input_histogram": hist,
